@@ -106,15 +106,15 @@ func (d *Document) AddMathFormula(latex string, isBlock bool) *MathParagraph {
 	// 实际的LaTeX到OMML转换由markdown包的LaTeXToOMML函数完成
 	if isBlock {
 		mp.MathPara = &OfficeMathPara{
-			Xmlns: "http://schemas.openxmlformats.org/officeDocument/2006/math",
+			Xmlns: officeMathNamespace,
 			Math: &OfficeMath{
-				Xmlns:  "http://schemas.openxmlformats.org/officeDocument/2006/math",
+				Xmlns:  officeMathNamespace,
 				RawXML: latex, // 这里存储的是预处理过的OMML内容
 			},
 		}
 	} else {
 		mp.Math = &OfficeMath{
-			Xmlns:  "http://schemas.openxmlformats.org/officeDocument/2006/math",
+			Xmlns:  officeMathNamespace,
 			RawXML: latex,
 		}
 	}
@@ -178,6 +178,127 @@ func isWellFormedMathFragment(content string) bool {
 			return false
 		}
 	}
+}
+
+const officeMathNamespace = "http://schemas.openxmlformats.org/officeDocument/2006/math"
+
+// paragraphMath 记录读取段落时遇到的数学公式元素
+type paragraphMath struct {
+	source []byte // 解码器正在读取的XML数据，公式的内部XML直接从中截取
+	count  int    // 段落中 m:oMath / m:oMathPara 的个数
+	block  bool   // 公式是否为 m:oMathPara
+	raw    string // m:oMath 的内部XML
+	valid  bool   // raw 可以原样写回
+}
+
+// parseBodyParagraph 解析文档主体中的段落。AddMathFormula 写出的公式段落（内容只有一个
+// m:oMath 或 m:oMathPara）读取为 MathParagraph，公式的内部XML保持原样；其他段落读取为 Paragraph
+func (d *Document) parseBodyParagraph(decoder *xml.Decoder, startElement xml.StartElement) (interface{}, error) {
+	// 解码器读取的是主文档部件（见 parseDocument）
+	math := &paragraphMath{source: d.parts["word/document.xml"]}
+	paragraph, err := d.parseParagraphContent(decoder, math)
+	if err != nil {
+		return nil, err
+	}
+	// 带有文本的段落仍然读取为普通段落，其文本才能通过段落API访问
+	if math.count != 1 || !math.valid || len(paragraph.Runs) > 0 {
+		return paragraph, nil
+	}
+
+	mp := &MathParagraph{
+		Properties: paragraph.Properties,
+		Runs:       []Run{},
+	}
+	formula := &OfficeMath{Xmlns: officeMathNamespace, RawXML: math.raw}
+	if math.block {
+		mp.MathPara = &OfficeMathPara{Xmlns: officeMathNamespace, Math: formula}
+	} else {
+		mp.Math = formula
+	}
+	return mp, nil
+}
+
+// read 读取一个 m:oMath 或 m:oMathPara 元素（解码器位于其开始标记之后）
+func (m *paragraphMath) read(decoder *xml.Decoder, startElement xml.StartElement) error {
+	m.count++
+	if startElement.Name.Local == "oMath" {
+		raw, ok, err := m.readInnerXML(decoder)
+		if err != nil {
+			return err
+		}
+		m.block, m.raw, m.valid = false, raw, ok
+		return nil
+	}
+
+	// m:oMathPara：MathParagraph 只能表示其中的一个 m:oMath
+	m.block, m.valid = true, false
+	formulas := 0
+	for {
+		token, err := decoder.Token()
+		if err != nil {
+			return WrapError("parse_math_paragraph", err)
+		}
+
+		switch t := token.(type) {
+		case xml.StartElement:
+			raw, ok, err := m.readInnerXML(decoder)
+			if err != nil {
+				return err
+			}
+			if t.Name.Local == "oMath" && t.Name.Space == officeMathNamespace {
+				formulas++
+				m.raw, m.valid = raw, ok && formulas == 1
+			}
+		case xml.EndElement:
+			return nil
+		}
+	}
+}
+
+// readInnerXML 跳过当前元素并返回其内部XML在源数据中的原文。只有当原文可以安全地写入
+// 本库生成的文档时（只使用 m: 和 w: 前缀，且它们指向数学和文字处理命名空间）ok 才为 true
+func (m *paragraphMath) readInnerXML(decoder *xml.Decoder) (raw string, ok bool, err error) {
+	const wordNS = "http://schemas.openxmlformats.org/wordprocessingml/2006/main"
+	knownSpace := func(space string) bool {
+		return space == "" || space == officeMathNamespace || space == wordNS ||
+			space == "http://www.w3.org/XML/1998/namespace"
+	}
+
+	begin := decoder.InputOffset()
+	end := begin
+	ok = true
+	for depth := 1; depth > 0; {
+		end = decoder.InputOffset()
+		token, err := decoder.Token()
+		if err != nil {
+			return "", false, WrapError("parse_math", err)
+		}
+		switch t := token.(type) {
+		case xml.StartElement:
+			depth++
+			if !knownSpace(t.Name.Space) {
+				ok = false
+			}
+			for _, attr := range t.Attr {
+				if attr.Name.Space == "xmlns" {
+					// 命名空间声明只能重复写出文档时使用的绑定
+					if !(attr.Name.Local == "m" && attr.Value == officeMathNamespace) &&
+						!(attr.Name.Local == "w" && attr.Value == wordNS) {
+						ok = false
+					}
+				} else if !knownSpace(attr.Name.Space) {
+					ok = false
+				}
+			}
+		case xml.EndElement:
+			depth--
+		}
+	}
+	if !ok || begin < 0 || end < begin || end > int64(len(m.source)) {
+		return "", false, nil
+	}
+	raw = string(m.source[begin:end])
+	return raw, isWellFormedMathFragment(raw), nil
 }
 
 // AddInlineMathFormula 向段落中添加行内数学公式
